@@ -140,6 +140,10 @@ class Rules:
         st = seg.st
         start = seg.start
         self.r_panic(I, seg)
+        if seg.level != "fn":
+            # loop segments are seen before equal-signature outcomes are merged: the character classes a loop continues
+            # and stops on are complete only here
+            self.r_replay(I, seg, pairs=False)
         if seg.level == "fn":
             self.r_newline(I, seg)
             self.r_emit_rules(I, seg)
@@ -167,6 +171,7 @@ class Rules:
             self.r_unconsume(I, seg)
             self.r_stop_set(I, seg)
             self.r_pop_own(I, seg)
+            self.r_replay(I, seg)
 
     # -- R-NONEMPTY and R-ERR-PAIR ---------------------------------------------------------------
     MAY_BE_EMPTY = {"EOF", "MacroSep", "MacroStringEmpty", "SEMI", "LPAREN", "RPAREN", "ASSIGN", "COMMA", "FSLASH",
@@ -529,6 +534,76 @@ class Rules:
                  "checkpoint was taken: the missing delimiter will not be diagnosed; removed modes (bottom..top): %s; conditions: %s"
                  % (what, [getattr(m, "variant", "?") for m in removed], "; ".join(seg.st.conds[-4:])[:200]))
 
+    # -- R-REPLAY-AGREE: a loop that re-walks what a look-ahead loop validated continues on the same characters ----------
+    def r_replay(self, I, seg, pairs=True):
+        """Idiom: scan ahead with a copy of the cursor (or its `chars()` iterator) to decide, then walk the real cursor
+        over the same stretch "to track line changes".  The second walk must stop exactly where the first one did: per
+        loop the characters it *continues* on and the characters it *stops* on are collected from the character facts of
+        every path (all modes; joined in lea_engine.compute), and for every such pair of loops
+        continue(look-ahead) is a subset of continue(replay) and continue(replay) avoids stop(look-ahead)."""
+        st = seg.st
+        evs = seg.events
+        strm = I.stream_of(st, "main")
+        cur = []
+        loops = {}     # loop id -> {"cursor", "first_pos", "items": [(pos, kind)]}
+        last = {}      # loop id -> index into items of the consume awaiting classification
+        order = []
+        restores = []  # (event index, to_pos) of `self.cursor = <saved copy>` in this function
+        for ei, e in enumerate(evs[seg.start:]):
+            k = e.kind
+            if e.d.get("owner") != seg.name and k in ("loop_enter", "loop_exit", "loop_back", "consume", "la_consume", "cursor_restore"):
+                continue
+            if k == "cursor_restore":
+                restores.append((ei, e.d.get("to_pos")))
+            elif k == "loop_enter":
+                cur.append(e.d["loop"])
+            elif k == "loop_exit":
+                L = e.d["loop"]
+                if L in last:
+                    loops[L]["items"][last.pop(L)][1] = "stop"
+                if cur and cur[-1] == L:
+                    cur.pop()
+            elif k == "loop_back":
+                L = e.d["loop"]
+                if L in last:
+                    loops[L]["items"][last.pop(L)][1] = "cont"
+            elif k in ("consume", "la_consume") and cur and e.d.get("via") == "advance" and e.d.get("chars"):
+                L = cur[-1]
+                d = loops.get(L)
+                if d is None:
+                    d = loops[L] = {"cursor": e.d.get("cursor"), "first_pos": e.d.get("pos"), "items": [], "first_ev": ei}
+                    order.append(L)
+                d["last_ev"] = ei
+                if d["cursor"] != e.d.get("cursor"):
+                    d["mixed"] = True
+                d["items"].append([e.d.get("pos"), "abort"])
+                last[L] = len(d["items"]) - 1
+        if seg.out.kind == "loopback":
+            for L, i in last.items():
+                loops[L]["items"][i][1] = "cont"
+        fn = short_fn(seg.name)
+        for L in order:
+            d = loops[L]
+            if d.get("mixed"):
+                continue
+            for pos, kind in d["items"]:
+                cf = st.cs.get(("LA", strm, pos))
+                for x in self._ALPHABET:
+                    if cf is None or cf.possible(x):
+                        self.bump("R-REPLAY-AGREE", "char_%s" % kind, "%s|%s|%d" % (fn, L, ord(x)))
+        # pairs: a look-ahead loop and a later main-cursor loop that start at the same position
+        # (the look-ahead may also be done on the real cursor, which is then put back to where the loop started)
+        for i, A in enumerate(order if pairs else ()):
+            if loops[A].get("mixed"):
+                continue
+            for B in order[i + 1:]:
+                if loops[B]["cursor"] != "main" or loops[B].get("mixed") or loops[B]["first_pos"] != loops[A]["first_pos"]:
+                    continue
+                speculative = loops[A]["cursor"] != "main" or any(
+                    loops[A]["last_ev"] < ri < loops[B]["first_ev"] and rp == loops[A]["first_pos"] for ri, rp in restores)
+                if speculative:
+                    self.bump("R-REPLAY-AGREE", "pairs", "%s|%s|%s" % (fn, A, B))
+
     # -- R-POP-OWN: a step pops only modes it can name --------------------------------------------------------------------
     def r_pop_own(self, I, seg):
         """A `lex_token` step owns the mode it was dispatched for and the modes it pushed itself.  Popping a mode
@@ -557,7 +632,7 @@ class Rules:
                  "closing token or diagnostic; conditions: %s" % (short_fn(seg.name), "; ".join(seg.st.conds[-4:])[:240]))
 
     # -- R-STOP-SET: a text scanner of macro-free code ends its token only where the grammar lets it ----------------------
-    _ALPHABET = [chr(i) for i in range(1, 128)] + list("\u00e9\u044b\u3042\u00a0\u2003\ufeff\u00ac\u00a6\u2218\U0001f525")
+    _ALPHABET = [chr(i) for i in range(1, 128)] + list("\u00e9\u044b\u3042\u00a0\u2003\ufeff\u00ac\u00a6\u2218\U0001f525\u0085\u1680\u2028\u3000")
 
     def stop_sets(self):
         c = self.__dict__.get("_stopsets")
@@ -603,6 +678,8 @@ class Rules:
                     if not cf0.possible(x):
                         continue
                     if x in stops:
+                        continue
+                    if any(sp.startswith("<not:") and C.NAMED.get(sp[5:-1]) and not C.NAMED[sp[5:-1]](x) for sp in stops):
                         continue
                     if x == "%" and ("%name_start" in stops or "%*" in stops):
                         nxt = [y for y in self._ALPHABET if cf1 is None or cf1.possible(y)]
@@ -2328,6 +2405,32 @@ def keyword_length_obs(counts):
                     if not missing else
                     "no path of %s consults %s for an identifier of length %s: the length conditions in front of the lookup "
                     "exclude it, so keywords of that length are never recognised" % (tag.split("|")[0], tag.split("|")[1], missing)})
+    return obs
+
+
+def replay_agree_obs(counts):
+    """R-REPLAY-AGREE, joined over all paths and modes (see Rules.r_replay)."""
+    c = counts.get("R-REPLAY-AGREE", {})
+    sets = {}
+    for kind in ("cont", "stop", "abort"):
+        for k in c.get("char_%s" % kind, ()):
+            fn, L, o = k.rsplit("|", 2)
+            sets.setdefault((fn, L), {}).setdefault(kind, set()).add(chr(int(o)))
+    obs = []
+    for k in sorted(c.get("pairs", ())):
+        fn, A, B = k.rsplit("|", 2)
+        ca, cb = sets.get((fn, A), {}).get("cont", set()), sets.get((fn, B), {}).get("cont", set())
+        sa = sets.get((fn, A), {}).get("stop", set())
+        early = sorted(ca - cb)
+        late = sorted(cb & sa)
+        ok = not early and not late
+        obs.append({"rule": "R-REPLAY-AGREE", "key": "%s|replay" % fn, "ok": ok, "site": "", "n": 1, "modes": [],
+                    "detail": "the replaying loop of %s continues on exactly the characters its look-ahead loop continued on (%d)" % (fn, len(ca))
+                    if ok else
+                    "%s validates a stretch with a look-ahead loop and then walks the real cursor over it, but the second loop %s: "
+                    "it ends somewhere else than the look-ahead promised, and the token boundary lands inside the stretch"
+                    % (fn, ("stops at %s, which the look-ahead skipped" % ", ".join(repr(x) for x in early[:5])) if early else
+                       ("runs over %s, where the look-ahead stopped" % ", ".join(repr(x) for x in late[:5])))})
     return obs
 
 
